@@ -1,8 +1,9 @@
 (* C07 - Headers commit to the whole state and chain together; contents are provable.
-   Pinned statements only; proofs in STF/Proofs/Block.v (state level).  The Merkle trees themselves
-   (novasmt) are exercised by the harness against the real crate: membership and absence proofs of every
-   entry, history independence of the roots, the dense transaction tree under TIP-908. *)
-From MelVerif Require Import STF.Model STF.Proofs.Block.
+   Pinned statements only; proofs in STF/Proofs/Block.v (state level) and Merkle/Smt.v (sparse Merkle tree of
+   novasmt over an abstract hash, tied to the real crate by the `merkle` stream: roots and proofs of small real
+   trees are recomputed by the model from tables of the real hash evaluations).  The dense transaction tree
+   under TIP-908 is exercised on the real crate only (every sealed Custom08 state of the stf stream). *)
+From MelVerif Require Import STF.Model STF.Proofs.Block Merkle.Smt.
 Open Scope N_scope.
 
 (* the header records the scalars of the state, the five roots, and the hash of the parent header *)
@@ -37,3 +38,47 @@ Theorem C07_child_links_to_parent : forall SO rf s hdr txs a u s2 h2,
   h_height h2 = s_height s + 1 /\ h_network h2 = s_network s /\ h_previous h2 = so_header_hash SO hdr.
 Proof. exact child_header_links_to_parent. Qed.
 Print Assumptions C07_child_links_to_parent.
+
+(* ---- Merkle level (coin, pool, history, stake and pre-TIP-908 transaction trees are novasmt sparse trees).
+   [root d m] is the root of the depth-d tree with contents m (a function from key paths to values, [] = absent);
+   the two conventions of novasmt (hash_data [] = 0, hash_node 0 0 = 0) are the only facts used about the hash. *)
+
+(* the root is a function of the contents alone: equal contents reached by different operation orders give
+   equal roots *)
+Theorem C07_root_depends_on_contents_only : forall H (hash_data : list N -> H) (hash_node : H -> H -> H) d m1 m2,
+  (forall p, m1 p = m2 p) -> root H hash_data hash_node d m1 = root H hash_data hash_node d m2.
+Proof. exact root_ext. Qed.
+Print Assumptions C07_root_depends_on_contents_only.
+
+(* every key - present or absent - has a proof that verifies against the root *)
+Theorem C07_proofs_verify : forall H (hash_data : list N -> H) (hash_node : H -> H -> H) d m key,
+  length key = d ->
+  climb H hash_node (proof H hash_data hash_node d m key) key (hash_data (m key)) = root H hash_data hash_node d m.
+Proof. exact proof_complete. Qed.
+Print Assumptions C07_proofs_verify.
+
+(* for a collision-free hash a verifying proof determines the value, and any difference in an entry changes
+   the root *)
+Theorem C07_proofs_are_sound : forall H (hash_data : list N -> H) (hash_node : H -> H -> H),
+  (forall a b a' b', hash_node a b = hash_node a' b' -> a = a' /\ b = b') ->
+  (forall v v', hash_data v = hash_data v' -> v = v') ->
+  forall d m key sibs v, length key = d -> length sibs = d ->
+  climb H hash_node sibs key (hash_data v) = root H hash_data hash_node d m -> v = m key.
+Proof. exact proof_sound. Qed.
+Print Assumptions C07_proofs_are_sound.
+
+Theorem C07_root_commits_to_every_entry : forall H (hash_data : list N -> H) (hash_node : H -> H -> H),
+  (forall a b a' b', hash_node a b = hash_node a' b' -> a = a' /\ b = b') ->
+  (forall v v', hash_data v = hash_data v' -> v = v') ->
+  forall d m1 m2, root H hash_data hash_node d m1 = root H hash_data hash_node d m2 ->
+  forall key, length key = d -> m1 key = m2 key.
+Proof. exact root_inj. Qed.
+Print Assumptions C07_root_commits_to_every_entry.
+
+(* the executable sparse root compared with novasmt is that root *)
+Theorem C07_sparse_root : forall H zero (hash_data : list N -> H) (hash_node : H -> H -> H),
+  hash_data [] = zero -> hash_node zero zero = zero ->
+  forall d l, keys_have_length d l ->
+  sroot H zero hash_data hash_node d l = root H hash_data hash_node d (fun k => lookup k l).
+Proof. exact sroot_is_root. Qed.
+Print Assumptions C07_sparse_root.
